@@ -16,7 +16,10 @@ PENDING = json.load(open(os.path.join(ROOT, 'tools', 'not_applicable.json')))
 def main():
     checks = []
     claimed = set()
+    allow = set(json.load(open(os.path.join(ROOT, 'tools', 'claimed.json'))))
     for pid in engine.all_props():
+        if pid not in allow:
+            continue
         prop = engine.load_prop(pid)
         m = prop.MANIFEST
         claimed.add(pid)
